@@ -5,30 +5,12 @@ import Ufw.Tie.RegTable
 #print axioms Ufw.Props.C04.init_outcome
 #print axioms Ufw.Props.C04.uninitialised_refuses
 #print axioms Ufw.Props.C04.init_no_areas
-#print axioms Ufw.Props.C04.orderCheck_none_iff
-#print axioms Ufw.Props.C04.areas_check
-#print axioms Ufw.Props.C04.entries_check
 #print axioms Ufw.Props.C04.init_unfold
-#print axioms Ufw.Props.C04.clear_fields
-#print axioms Ufw.Props.C04.clear_inside
-#print axioms Ufw.Props.C04.prep_geo
-#print axioms Ufw.Props.C04.prep_area
-#print axioms Ufw.Props.C04.prep_inv
-#print axioms Ufw.Props.C04.entryOk_prep
-#print axioms Ufw.Props.C04.entryOk_located
 #print axioms Ufw.Props.C04.init_success_iff
-#print axioms Ufw.Props.C04.orderCheck_some
-#print axioms Ufw.Props.C04.areas_check_some
-#print axioms Ufw.Props.C04.entries_check_some
 #print axioms Ufw.Props.C04.init_first_error
-#print axioms Ufw.Props.C04.init_success_state
-#print axioms Ufw.Props.C04.linkAreas_same
-#print axioms Ufw.Props.C04.linkAreas_length
-#print axioms Ufw.Props.C04.linkAreas_get
-#print axioms Ufw.Props.C04.get_links
-#print axioms Ufw.Props.C04.strip_eq
-#print axioms Ufw.Props.C04.clear_eq
-#print axioms Ufw.Props.C04.clear_getD
 #print axioms Ufw.Props.C04.init_post
+#print axioms Ufw.Props.C04.init_records
+#print axioms Ufw.Props.C04.init_good
+#print axioms Ufw.Props.C04.init_then_history
 #print axioms Ufw.Tie.RegTable.const_rds_size
 #print axioms Ufw.Tie.RegTable.const_enums
